@@ -192,7 +192,7 @@ def r2(ctx):
     sites = {}
     for mname, f in cls.methods.items():
         for c in calls_in(f.node):
-            if (call_name(c) or "").endswith(".cascade_iterator") and c.args:
+            if _is_walk(c, env_of(f.node)):  # also `walk = mapper.cascade_iterator; walk(..)`
                 lit = const_str(resolve_name(env_of(f.node), c.args[0]))  # `cascade_type = "delete"` local
                 ctx.require(lit is not None, f"{f.key}: cascade_iterator called with a non-literal type `{unparse(c.args[0])}`")
                 sites.setdefault(mname, []).append((lit, c))
@@ -559,6 +559,574 @@ def r5(ctx):
               "get_all_pending under type_ == 'save-update'", ci.loc)
 
 
+# ------------------------------------------------------------------ R6: lazy cascade walk vs discarding loaded state
+STATE = "orm/state.py::InstanceState"
+_EAGER_CALLS = {"list", "tuple", "set", "frozenset", "sorted", "deque", "dict"}
+_REDUCERS = {"any", "all", "sum", "min", "max", "len"}
+
+
+def _state_discarders(ctx):
+    """InstanceState methods that remove entries from a dictionary they receive as a parameter (the instance
+    `__dict__` handed in by the caller): calling one discards loaded attribute values -- the very values a cascade walk
+    reads (PASSIVE_NO_INITIALIZE) to find the next objects."""
+    cls = ctx.index.cls(STATE)
+    out = {}
+    for name, f in cls.methods.items():
+        params = set(f.params[1:])
+        for n in walk_local(f.node):
+            if isinstance(n, ast.Call) and isinstance(n.func, ast.Attribute) and n.func.attr in ("pop", "popitem", "clear") \
+                    and isinstance(n.func.value, ast.Name) and n.func.value.id in params:
+                out[name] = f
+            elif isinstance(n, ast.Delete) and any(isinstance(t, ast.Subscript) and isinstance(t.value, ast.Name) and t.value.id in params
+                                                   for t in n.targets):
+                out[name] = f
+    ctx.require(len(out) >= 2, f"{STATE}: only {sorted(out)} found as methods that discard loaded attribute state (rule went blind)")
+    return out
+
+
+def _is_walk(call, env):
+    fn = call.func
+    if isinstance(fn, ast.Name):
+        fn = resolve_name(env, fn)
+    return isinstance(fn, ast.Attribute) and fn.attr == "cascade_iterator" and len(call.args) >= 2
+
+
+def _returns_bare_walk(fnode):
+    env = env_of(fnode)
+    for n in walk_local(fnode):
+        if isinstance(n, ast.Return) and n.value is not None:
+            v = resolve_name(env, n.value)
+            if isinstance(v, ast.Call) and _is_walk(v, env):
+                return True
+    return False
+
+
+class _ClassView:
+    """self.<m>() resolution inside one class (through the static MRO) with the summaries the walk rule needs"""
+
+    def __init__(self, ctx, cls, discarders):
+        self.ctx, self.cls, self.discarders = ctx, cls, discarders
+        self._disc = {}
+
+    def method(self, call):
+        fn = call.func
+        if isinstance(fn, ast.Attribute) and isinstance(fn.value, ast.Name) and fn.value.id == "self" and self.cls is not None:
+            return self.ctx.index.resolve_method(self.cls, fn.attr)
+        return None
+
+    def is_discard_call(self, c):
+        return isinstance(c.func, ast.Attribute) and c.func.attr in self.discarders \
+            and not (isinstance(c.func.value, ast.Name) and c.func.value.id in ("self", "cls", "super"))
+
+    def discards(self, fi, depth=3):
+        """does the method (through self.<m>() calls) discard loaded state of some object"""
+        k = fi.key
+        if k in self._disc:
+            return self._disc[k]
+        self._disc[k] = False
+        res = False
+        for c in calls_in(fi.node):
+            if self.is_discard_call(c):
+                res = True
+            elif depth > 0:
+                m = self.method(c)
+                if m is not None and m.node is not fi.node and self.discards(m, depth - 1):
+                    res = True
+        self._disc[k] = res
+        return res
+
+    def has_walk(self, fi):
+        env = env_of(fi.node)
+        return any(_is_walk(c, env) for c in calls_in(fi.node))
+
+    def resolver(self):
+        def resolve(call):
+            m = self.method(call)
+            if m is None:
+                return None
+            if self.discards(m) or self.has_walk(m):
+                self.ctx.functions_analysed.add(m.key)
+                return (m.node, ast.Name(id="self", ctx=ast.Load()))
+            return None
+        return resolve
+
+
+class _InlinePureReturns(ast.NodeTransformer):
+    """`self.<helper>(args)` anywhere in an expression (a `for` iterable, an argument) -> the helper's returned
+    expression with the parameters substituted, for helpers whose body is just `return <expr>` and that hand out a
+    cascade walk (inline_local_calls only follows statement-level calls and `if` tests)."""
+
+    def __init__(self, view, own):
+        self.view, self.own, self.n = view, own, 0
+
+    def visit_Call(self, node):
+        self.generic_visit(node)
+        m = self.view.method(node)
+        if m is None or m.node is self.own or not _returns_bare_walk(m.node):
+            return node
+        body = [st for st in m.node.body if not (isinstance(st, ast.Expr) and isinstance(st.value, ast.Constant))]
+        a = m.node.args
+        if len(body) != 1 or not isinstance(body[0], ast.Return) or a.vararg or a.kwarg or a.kwonlyargs or node.keywords \
+                or any(isinstance(x, ast.Starred) for x in node.args):
+            return node
+        params = [p.arg for p in a.posonlyargs + a.args][1:]
+        if len(params) != len(node.args):
+            return node
+        from ._helpers_rob_g1 import substitute
+        self.n += 1
+        self.view.ctx.functions_analysed.add(m.key)
+        return ast.copy_location(substitute(body[0].value, dict(zip(params, node.args))), node)
+
+
+def _stmts_under(body):
+    for st in body:
+        yield st
+        if isinstance(st, (ast.FunctionDef, ast.AsyncFunctionDef, ast.ClassDef)):
+            continue
+        for fld in ("body", "orelse", "finalbody"):
+            sub_ = getattr(st, fld, None)
+            if isinstance(sub_, list) and sub_ and isinstance(sub_[0], ast.stmt):
+                yield from _stmts_under(sub_)
+        for hd in getattr(st, "handlers", []) or []:
+            yield from _stmts_under(hd.body)
+        for case in getattr(st, "cases", []) or []:
+            yield from _stmts_under(case.body)
+
+
+def _between(g, starts, targets):
+    """nodes on some path start -> target that does not pass a start node again"""
+    starts, targets = set(starts), set(targets)
+    fwd = g.reachable(starts, avoid=(), include_starts=False)
+    pred = {}
+    for a in range(len(g.nodes)):
+        for b, _lab in g.succ[a]:
+            pred.setdefault(b, []).append(a)
+    bwd, todo = set(targets), list(targets)
+    while todo:
+        b = todo.pop()
+        for a in pred.get(b, ()):
+            if a not in bwd and a not in starts:
+                bwd.add(a)
+                todo.append(a)
+    return (fwd & bwd) - starts
+
+
+def _walk_consumption(call, pm, env, nf):
+    """how the generator returned by a cascade_iterator call is consumed:
+    ('eager', how) | ('loop', [For]) | ('bound', assign stmt, [For loops], [eager use stmts], escapes) | ('returned',) | ('other', text)"""
+    cur, p = call, pm.get(call)
+    while isinstance(p, ast.Call) and isinstance(p.func, ast.Name) and p.func.id == "iter" and len(p.args) == 1 and p.args[0] is cur:
+        cur, p = p, pm.get(p)
+    if isinstance(p, ast.Call) and any(a is cur for a in p.args):
+        nm = (call_name(p) or "").split(".")[-1]
+        if nm in _EAGER_CALLS:
+            return ("eager", f"{nm}(..)")
+    if isinstance(p, ast.comprehension) and p.iter is cur:
+        comp = pm.get(p)
+        if isinstance(comp, (ast.ListComp, ast.SetComp, ast.DictComp)):
+            return ("eager", "comprehension")
+        gp = pm.get(comp)
+        if isinstance(gp, ast.Call) and (call_name(gp) or "").split(".")[-1] in _EAGER_CALLS | _REDUCERS:
+            return ("eager", f"{call_name(gp)}(<generator>)")
+        return ("other", "generator expression")
+    if isinstance(p, (ast.For, ast.AsyncFor)) and p.iter is cur:
+        return ("loop", [p])
+    if isinstance(p, ast.Return):
+        return ("returned",)
+    if isinstance(p, (ast.Assign, ast.AnnAssign)) and p.value is cur:
+        tgts = p.targets if isinstance(p, ast.Assign) else [p.target]
+        if len(tgts) == 1 and isinstance(tgts[0], ast.Name):
+            name = tgts[0].id
+            loops, eager, escapes = [], [], False
+            for n in walk_local(nf):
+                if isinstance(n, ast.Name) and n.id == name and isinstance(n.ctx, ast.Load):
+                    q = pm.get(n)
+                    if isinstance(q, (ast.For, ast.AsyncFor)) and q.iter is n:
+                        loops.append(q)
+                    elif isinstance(q, ast.Call) and any(a is n for a in q.args) and (call_name(q) or "").split(".")[-1] in _EAGER_CALLS:
+                        st = q
+                        while st is not None and not isinstance(st, ast.stmt):
+                            st = pm.get(st)
+                        eager.append(st)
+                    elif isinstance(q, ast.comprehension) and q.iter is n and isinstance(pm.get(q), (ast.ListComp, ast.SetComp, ast.DictComp)):
+                        st = q
+                        while st is not None and not isinstance(st, ast.stmt):
+                            st = pm.get(st)
+                        eager.append(st)
+                    else:
+                        escapes = True
+            return ("bound", p, loops, eager, escapes)
+    return ("other", type(p).__name__)
+
+
+@R.rule("C39-R6", floor=6, template="T-ORDER",
+        desc="Mapper.cascade_iterator is a lazy generator that reads the walked objects' loaded attributes: wherever a "
+             "cascade walk is consumed in orm/, the loaded state of the lead object is not discarded before the walk, and "
+             "while the generator is still being consumed (a `for` directly over it, or between binding it to a local and "
+             "exhausting it) no walked object's loaded state is discarded (InstanceState._expire/_expire_attributes/..., "
+             "directly or through self.<helper>()); materialising the walk first (list(..)) is the safe form")
+def r6(ctx):
+    from ._helpers_rob_f2 import inline_local_calls
+    from ..astutil import names_in
+    from ..cfg import no_exc
+    mp = ctx.func("orm/mapper.py::Mapper.cascade_iterator")
+    lazy = any(isinstance(n, (ast.Yield, ast.YieldFrom)) for n in walk_local(mp.node))
+    discarders = _state_discarders(ctx)
+    views = {}
+    n_sites = 0
+    for m in ctx.index.all_modules():
+        if not m.relpath.startswith("orm/"):
+            continue
+        seen_nodes = set()
+        for fi in ctx.index.all_functions(m):
+            if id(fi.node) in seen_nodes or fi.type_only:
+                continue
+            seen_nodes.add(id(fi.node))
+            env0 = env_of(fi.node)
+            view = views.setdefault(fi.cls.key if fi.cls is not None else None, _ClassView(ctx, fi.cls, discarders))
+            lexical = [c for c in calls_in(fi.node) if _is_walk(c, env0)]
+            via_helper = [c for c in calls_in(fi.node) if (view.method(c) is not None and view.method(c).node is not fi.node
+                                                           and _returns_bare_walk(view.method(c).node))]
+            if not lexical and not via_helper:
+                # a helper performs the walk and this function discards state on its own (`self._expire(x); ys = self._walk(x)`)
+                walkers = [c for c in calls_in(fi.node) if view.method(c) is not None and view.method(c).node is not fi.node and view.has_walk(view.method(c))]
+                others = [c for c in calls_in(fi.node) if not any(c is w for w in walkers) and (
+                    view.is_discard_call(c) or (view.method(c) is not None and view.method(c).node is not fi.node and view.discards(view.method(c))))]
+                if not (walkers and others):
+                    continue
+            ctx.functions_analysed.add(fi.key)
+            nf, _n = inline_local_calls(fi.node, view.resolver(), depth=3)
+            nf = ast.fix_missing_locations(_InlinePureReturns(view, fi.node).visit(nf))
+            g = ctx.cfg(nf)
+            pm = parent_map(nf)
+            env = env_of(nf)
+            # every call that discards loaded state of some object: (call, names of the object expression, text)
+            disc = []
+            for c in calls_in(nf):
+                if view.is_discard_call(c):
+                    recv = expand_aliases(c.func.value, env)
+                    disc.append((c, names_in(c.func.value) | names_in(recv), unparse(recv)))
+                else:
+                    mm = view.method(c)
+                    if mm is not None and mm.node is not fi.node and view.discards(mm):  # helper that could not be inlined
+                        for a in list(c.args) + [k.value for k in c.keywords]:
+                            ea = expand_aliases(a, env)
+                            disc.append((c, names_in(a) | names_in(ea), unparse(ea)))
+            used = {}
+            for c in calls_in(nf):
+                if not _is_walk(c, env):
+                    continue
+                lit = const_str(resolve_name(env, c.args[0]))
+                label = lit if lit is not None else unparse(c.args[0])
+                used[label] = used.get(label, 0) + 1
+                key = f"{fi.key}:walk[{label}]" + (f"#{used[label]}" if used[label] > 1 else "")
+                n_sites += 1
+                loc = f"{fi.module.path}:{getattr(c, 'lineno', fi.node.lineno)}"
+                if not lazy:
+                    ctx.ok(key, "Mapper.cascade_iterator is not a generator: the walk is complete when the call returns")
+                    continue
+                lead = expand_aliases(c.args[1], env)
+                lead_txt, lead_names = unparse(lead), names_in(c.args[1]) | names_in(lead)
+                site_nodes = g.nodes_containing(c)
+                ctx.require(site_nodes, f"{fi.key}: cascade_iterator call not found in the CFG")
+                problems = []
+                # (a) the lead object's loaded state is intact when the walk starts
+                rebinding = set()
+                for n in walk_local(nf):
+                    tnames = set()
+                    if isinstance(n, (ast.For, ast.AsyncFor)):
+                        tnames = names_in(n.target)
+                    elif isinstance(n, ast.Assign):
+                        tnames = set().union(*[names_in(t) for t in n.targets if not isinstance(t, (ast.Attribute, ast.Subscript))] or [set()])
+                    if tnames & lead_names:
+                        rebinding.update(i for i in g.nodes_for(n) if g.node(i).kind in ("for", "stmt"))
+                for dc, _names, txt in disc:
+                    if txt != lead_txt:
+                        continue
+                    dn = g.nodes_containing(dc)
+                    w = g.witness(dn, site_nodes, avoid=rebinding - set(dn), edge_ok=no_exc)
+                    if w is not None and not (set(dn) & set(site_nodes)):
+                        problems.append(f"`{unparse(dc)[:60]}` (line {dc.lineno}) discards the loaded attributes of the lead object `{lead_txt}` "
+                                        "before the cascade is collected: the walk reads the relationships from the instance dict and finds nothing")
+                # (b) nothing walked is discarded while the generator is still being consumed
+                kind = _walk_consumption(c, pm, env, nf)
+                how = ""
+                live, derived = set(), set()
+                if kind[0] == "eager":
+                    how = f"materialised by {kind[1]} before anything is done with the members"
+                elif kind[0] == "returned":
+                    how = "generator handed to the caller (judged where the caller consumes it)"
+                elif kind[0] == "loop":
+                    loops = kind[1]
+                elif kind[0] == "bound":
+                    _k, st, loops, eager_uses, escapes = kind
+                    if escapes and not loops and not eager_uses:
+                        how = "generator bound to a local that is handed on (not decided here)"
+                    use_nodes = [i for u in loops + eager_uses for i in g.nodes_for(u)]
+                    live |= _between(g, g.nodes_for(st), use_nodes)
+                else:
+                    how = f"consumed inside one expression ({kind[1]})"
+                    loops = []
+                if kind[0] in ("loop", "bound"):
+                    for lp in loops:
+                        derived |= names_in(lp.target)
+                        for st2 in _stmts_under(lp.body):
+                            live.update(g.nodes_for(st2))
+                    for _ in range(3):
+                        for n in walk_local(nf):
+                            if isinstance(n, ast.Assign) and names_in(n.value) & derived:
+                                for t in n.targets:
+                                    if isinstance(t, ast.Name):
+                                        derived.add(t.id)
+                    for dc, names, txt in disc:
+                        if not (names & (derived | lead_names)):
+                            continue
+                        if set(g.nodes_containing(dc)) & live:
+                            problems.append(
+                                f"the generator of cascade_iterator({label!r}, {lead_txt}) is still being consumed when "
+                                f"`{unparse(dc)[:60]}` (line {dc.lineno}) discards loaded attributes of `{txt}`: the walk yields an object before "
+                                "it reads that object's relationships, so everything below it is no longer reached (collect the walk "
+                                "with list(..) first)")
+                    how = how or "consumed lazily; nothing in the consumption window discards loaded state of the walked objects"
+                ctx.check(not problems, key, "; ".join(dict.fromkeys(problems)), how, loc)
+    ctx.require(n_sites >= 4, f"only {n_sites} cascade walks found in orm/ (rule went blind)")
+
+
+# ------------------------------------------------------------------ R7: membership changes made by the cascade listeners
+UOW = "orm/unitofwork.py"
+_IDENTITY_MUTATORS = {"add": "add", "replace": "add", "_add_unpresent": "add",
+                      "safe_discard": "remove", "discard": "remove", "_fast_discard": "remove", "_manage_removed_state": "remove"}
+_MEMBER_SETS = ("_new", "_deleted", "identity_map")
+
+
+def _session_sites(ctx, cls):
+    sites = {}
+    for mname, f in cls.methods.items():
+        for c in calls_in(f.node):
+            if _is_walk(c, env_of(f.node)):
+                lit = const_str(resolve_name(env_of(f.node), c.args[0]))
+                if lit is not None:
+                    sites.setdefault(mname, []).append((lit, c))
+    return sites
+
+
+def _membership_effect(node, owner="self"):
+    """{'add', 'remove'}: how the statements of `node` change the membership collections of the Session `owner`"""
+    out = set()
+    for n in walk_local(node):
+        if isinstance(n, (ast.Assign, ast.AugAssign, ast.Delete)):
+            tg = n.targets if not isinstance(n, ast.AugAssign) else [n.target]
+            for t in tg:
+                if isinstance(t, ast.Subscript) and isinstance(t.value, ast.Attribute) and t.value.attr in _MEMBER_SETS \
+                        and unparse(t.value.value) == owner:
+                    out.add("remove" if isinstance(n, ast.Delete) else "add")
+        elif isinstance(n, ast.Call) and isinstance(n.func, ast.Attribute) and isinstance(n.func.value, ast.Attribute) \
+                and n.func.value.attr in _MEMBER_SETS and unparse(n.func.value.value) == owner:
+            a = n.func.attr
+            if n.func.value.attr == "identity_map":
+                if a in _IDENTITY_MUTATORS:
+                    out.add(_IDENTITY_MUTATORS[a])
+            elif a in ("pop", "popitem", "clear", "discard", "remove", "__delitem__"):
+                out.add("remove")
+            elif a in ("add", "update", "setdefault", "__setitem__"):
+                out.add("add")
+    return out
+
+
+def _is_session_expr(e, env):
+    e = resolve_name(env, e)
+    if isinstance(e, ast.Attribute) and e.attr == "session":
+        return True
+    if isinstance(e, ast.Call) and (call_name(e) or "").split(".")[-1] in ("_state_session", "object_session"):
+        return True
+    return False
+
+
+@R.rule("C39-R7", floor=3, template="T-SIBLING",
+        desc="the attribute-event listeners of _track_cascade_events (append / remove / set) change session membership "
+             "only through Session methods that apply the matching cascade: every Session method they call that "
+             "(through self.<m>()) adds to or removes from _new/_deleted/identity_map also reaches "
+             "Mapper.cascade_iterator -- with 'save-update' when it adds, 'expunge' when it only removes -- and no "
+             "listener edits those collections directly")
+def r7(ctx):
+    from ._helpers_rob_f2 import inline_local_calls
+    cls = ctx.index.cls(f"{SESS}::Session")
+    sites = _session_sites(ctx, cls)
+    ctx.require(len(sites) >= 4, f"only {len(sites)} Session methods call cascade_iterator (rule went blind)")
+    im = ctx.index.cls("orm/identity.py::IdentityMap")
+    gone = sorted(m_ for m_ in _IDENTITY_MUTATORS if m_ not in im.methods and not any(m_ in k.methods for k in ctx.index.subclasses(im)))
+    ctx.require(not gone, f"orm/identity.py::IdentityMap: membership mutators {gone} no longer exist (table _IDENTITY_MUTATORS is stale)")
+    outer = ctx.func(f"{UOW}::_track_cascade_events")
+    closures = {n.name: n for n in outer.node.body if isinstance(n, ast.FunctionDef)}
+    module_fns = {name: fi.node for name, fi in outer.module.functions.items() if fi.node is not outer.node}
+    env_outer = env_of(outer.node)
+    listeners = []
+    for c in calls_in(outer.node):
+        if (call_name(c) or "").endswith("listen") and len(c.args) >= 3:
+            fn = resolve_name(env_outer, c.args[2])
+            if isinstance(fn, ast.Name) and fn.id in closures and closures[fn.id] not in listeners:
+                listeners.append(closures[fn.id])
+    ctx.require(len(listeners) >= 3, f"{outer.key}: only {len(listeners)} event listeners registered (append/remove/set expected)")
+
+    def resolve(call):
+        if isinstance(call.func, ast.Name):
+            return closures.get(call.func.id) or module_fns.get(call.func.id)
+        return None
+
+    eff_cache = {}
+
+    def effect_of(mname):
+        if mname not in eff_cache:
+            eff, types = set(), set()
+            for x in _reach(ctx, cls, mname):
+                fx = ctx.index.resolve_method(cls, x)
+                if fx is not None:
+                    eff |= _membership_effect(fx.node)
+                types |= {lit for lit, _ in sites.get(x, [])}
+            eff_cache[mname] = (eff, types)
+        return eff_cache[mname]
+
+    for ln in listeners:
+        nf, _n = inline_local_calls(ln, resolve, depth=3)
+        env = env_of(nf)
+        base = f"{UOW}::_track_cascade_events.{ln.name}"
+        # direct edits of the membership collections
+        direct = []
+        for n in walk_local(nf):
+            tgt = None
+            if isinstance(n, ast.Call) and isinstance(n.func, ast.Attribute) and isinstance(n.func.value, ast.Attribute) \
+                    and n.func.value.attr in _MEMBER_SETS and _is_session_expr(n.func.value.value, env):
+                if n.func.attr in ("pop", "popitem", "clear", "discard", "remove", "add", "update", "setdefault", "replace", "safe_discard"):
+                    tgt = n
+            elif isinstance(n, (ast.Assign, ast.Delete)):
+                for t in n.targets:
+                    if isinstance(t, ast.Subscript) and isinstance(t.value, ast.Attribute) and t.value.attr in _MEMBER_SETS \
+                            and _is_session_expr(t.value.value, env):
+                        tgt = n
+            if tgt is not None:
+                direct.append(tgt)
+        for d in direct:
+            ctx.violation(f"{base}:direct-membership-edit",
+                          f"`{unparse(d)[:70]}` edits the session's membership collections from the attribute listener: no cascade is applied "
+                          "to the objects reachable from the added/removed one", f"{outer.module.path}:{d.lineno}")
+        for c in calls_in(nf):
+            cf = resolve_name(env, c.func) if isinstance(c.func, ast.Name) else c.func  # `expunge = sess.expunge; expunge(x)`
+            if not (isinstance(cf, ast.Attribute) and _is_session_expr(cf.value, env)):
+                continue
+            mname = cf.attr
+            if ctx.index.resolve_method(cls, mname) is None:
+                continue
+            eff, types = effect_of(mname)
+            if not eff:
+                continue
+            want = "save-update" if "add" in eff else "expunge"
+            what = "adds objects to" if "add" in eff else "removes objects from"
+            ctx.check(want in types, f"{base}:{mname}",
+                      f"the `{ln.name}` listener calls Session.{mname}(), which {what} the session but "
+                      + (f"reaches cascade_iterator only with {sorted(types)}" if types else "never walks a cascade")
+                      + f": the objects reachable from the argument along the '{want}' cascade are left "
+                      + ("out of" if want == "save-update" else "behind in") + " the session (sibling listeners go through the cascading API)",
+                      f"Session.{mname} -> cascade_iterator('{want}')", f"{outer.module.path}:{c.lineno}")
+
+
+# ------------------------------------------------------------------ R8: only persistent objects are marked for deletion
+def _persistence_tested(atoms, var):
+    """a dominating outcome that says something about `var` having a database identity"""
+    for txt, _pol in atoms:
+        if re.search(rf"\b{re.escape(var)}\.(key|has_identity|persistent|pending|transient|_is_persistent)\b", txt):
+            return True
+        if re.search(rf"(is_deleted|_contains_state|in [\w.]*identity_map|in [\w.]*_new)\b.*\b{re.escape(var)}\b|\b{re.escape(var)}\b in [\w.]*(identity_map|_new)\b", txt):
+            return True
+    return False
+
+
+@R.rule("C39-R8", floor=4, template="T-SIBLING",
+        desc="objects marked for deletion by a delete / delete-orphan cascade have a row: Session._delete_impl skips a cascaded "
+             "object without identity key, and every presort_deletes/presort_saves of a dependency processor that registers "
+             "children with isdelete=True either draws them from History parts that were loaded from / flushed to the "
+             "database (unchanged, deleted) or tests the child's persistence first when the accessor includes `added` members")
+def r8(ctx):
+    added = load("history_added.json")["includes_added"]
+    # reference sibling: the session-level delete cascade
+    di = ctx.func(f"{SESS}::Session._delete_impl")
+    g = ctx.cfg(di)
+    st_param = di.params[1]
+    marks = [n for n in walk_local(di.node) if isinstance(n, ast.Assign) and any(
+        isinstance(t, ast.Subscript) and unparse(t.value) == "self._deleted" for t in n.targets)]
+    ctx.require(marks, f"{di.key}: `self._deleted[..] = ..` not found")
+    at = _fn_guards(ctx, di)
+    ok = all((f"{st_param}.key is None", False) in at(mk) or (f"{st_param}.key", True) in at(mk)
+             or any(t.startswith(f"{st_param}.has_identity") and p for t, p in at(mk)) for mk in marks)
+    ctx.check(ok, f"{di.key}:persistent-only", f"an object is put into Session._deleted without `{st_param}.key is None` having been excluded: "
+              "a pending object reached by the delete cascade would be DELETEd although it has no row",
+              f"marked only when {st_param}.key is not None", di.loc)
+    base = ctx.index.cls(DP)
+    classes = [c for c in ctx.index.subclasses(base) if c.module.relpath == DEP]
+    ctx.require(len(classes) >= 3, f"only {len(classes)} dependency processor classes found")
+    n_sites = 0
+    for c in sorted(classes, key=lambda c: c.name):
+        for mname in ("presort_deletes", "presort_saves"):
+            f = c.methods.get(mname)
+            if f is None:
+                continue
+            fn = f.node
+            assigns = _local_assigns(fn)
+            hist = {n for n, defs in assigns.items()
+                    if any(isinstance(v, ast.Call) and (call_name(v) or "").endswith(".get_attribute_history") for v, _ in defs)}
+            if not hist:
+                continue
+            g = ctx.cfg(f)
+            problems, how = [], []
+            found = False
+            for loop in [n for n in walk_local(fn) if isinstance(n, ast.For) and isinstance(n.target, ast.Name)]:
+                var = loop.target.id
+                parts = []
+                p0 = _history_part(loop.iter, hist)
+                if p0 is not None:
+                    parts.append(p0)
+                elif isinstance(loop.iter, ast.Name):
+                    for v, _st in assigns.get(loop.iter.id, []):
+                        p1 = _history_part(v, hist)
+                        if p1 is not None:
+                            parts.append(p1)
+                if not parts:
+                    continue
+                for p_ in parts:
+                    ctx.require(p_ in added, f"{f.key}: History accessor `{p_}` not in the oracle history_added.json")
+                for call in calls_in(loop):
+                    if not ((call_name(call) or "").endswith(".register_object") and call.args
+                            and isinstance(call.args[0], ast.Name) and call.args[0].id == var):
+                        continue
+                    val = None
+                    for kw in call.keywords:
+                        if kw.arg == "isdelete":
+                            val = kw.value
+                    if val is None and len(call.args) > 1:
+                        val = call.args[1]
+                    if val is None or (isinstance(val, ast.Constant) and not val.value):
+                        continue
+                    found = True
+                    risky = sorted(p_ for p_ in parts if added[p_])
+                    if not risky:
+                        how.append(f"`for {var} in {unparse(loop.iter)}`: members known to the database")
+                        continue
+                    atoms = _guard_atoms_at(g, call)
+                    if _persistence_tested(atoms, var):
+                        how.append(f"`for {var} in {unparse(loop.iter)}`: persistence of {var} tested")
+                    else:
+                        problems.append(
+                            f"`for {var} in ...` draws the children from History.{'/'.join(risky)}, which include objects ADDED since the "
+                            f"last flush, and registers them with isdelete=True without testing that `{var}` is persistent "
+                            f"(e.g. `{var}.key` / `{var}.has_identity`): a pending object assigned to the relationship is DELETEd with a "
+                            "primary key it never had when the parent is deleted (Session._delete_impl skips such objects)")
+            if not found:
+                continue
+            n_sites += 1
+            ctx.functions_analysed.add(f.key)
+            ctx.check(not problems, f"{f.key}:deleted-children-persistent", "; ".join(dict.fromkeys(problems)), "; ".join(dict.fromkeys(how)), f.loc)
+    ctx.require(n_sites >= 2, f"only {n_sites} presort sites registering children for deletion found (rule went blind)")
+
+
 # --------------------------------------------------------------------------------------- self-test
 R.mutant("flag-from-wrong-literal", UTIL,
          sub("        self.refresh_expire = \"refresh-expire\" in values\n", "        self.refresh_expire = \"refresh_expire\" in values\n"), "C39-R1")
@@ -770,3 +1338,108 @@ R.mutant("o2m-presort-deletes-filtered-comprehension-no-hasparent", DEP,
          sub("                for child in history.deleted:\n                    if child is not None and self.hasparent(child) is False:\n                        if self.cascade.delete_orphan:\n",
              "                removed = [c for c in history.deleted if c is not None]\n                for child in removed:\n                    if child is not None:\n                        if self.cascade.delete_orphan:\n"),
          "C39-R4")
+
+
+# -------------------------------------------------------------------------------------- str2-r: round-2 seeds (C39-R6/R7/R8)
+_EXPIRE_WALK = ("            cascaded = list(\n                state.manager.mapper.cascade_iterator(\"refresh-expire\", state)\n            )\n"
+                "            self._conditional_expire(state)\n            for o, m, st_, dct_ in cascaded:\n                self._conditional_expire(st_)\n")
+_COND_EXPIRE_AT = "    def _conditional_expire(\n"
+# seed C39_3: the pre-fetched list became a streaming loop over the generator
+R.mutant("seed3-refresh-expire-walk-streamed", SESS,
+         sub(_EXPIRE_WALK, "            for o, m, st_, dct_ in state.manager.mapper.cascade_iterator(\n                \"refresh-expire\", state\n            ):\n"
+                           "                self._conditional_expire(st_)\n            self._conditional_expire(state)\n"), "C39-R6")
+R.mutant("refresh-expire-lead-expired-before-walk", SESS,
+         sub(_EXPIRE_WALK, "            self._conditional_expire(state)\n            cascaded = list(\n                state.manager.mapper.cascade_iterator(\"refresh-expire\", state)\n            )\n"
+                           "            for o, m, st_, dct_ in cascaded:\n                self._conditional_expire(st_)\n"), "C39-R6")
+R.mutant("refresh-expire-generator-bound-not-collected", SESS,
+         sub(_EXPIRE_WALK, "            cascaded = state.manager.mapper.cascade_iterator(\n                \"refresh-expire\", state\n            )\n"
+                           "            for o, m, st_, dct_ in cascaded:\n                self._conditional_expire(st_)\n            self._conditional_expire(state)\n"), "C39-R6")
+R.mutant("refresh-expire-helper-returns-generator-streamed", SESS,
+         _chain(sub(_EXPIRE_WALK, "            for o, m, st_, dct_ in self._refresh_expire_cascade(state):\n                self._conditional_expire(st_)\n            self._conditional_expire(state)\n"),
+                sub(_COND_EXPIRE_AT, "    def _refresh_expire_cascade(self, state):\n        return state.manager.mapper.cascade_iterator(\"refresh-expire\", state)\n\n" + _COND_EXPIRE_AT)),
+         "C39-R6")
+R.mutant("refresh-expire-streamed-direct-expire-call", SESS,
+         sub(_EXPIRE_WALK, "            walk = state.manager.mapper.cascade_iterator\n            for member in walk(\"refresh-expire\", state):\n                cascaded_state = member[2]\n"
+                           "                if cascaded_state.key:\n                    cascaded_state._expire(\n                        cascaded_state.dict, self.identity_map._modified\n                    )\n"
+                           "            self._conditional_expire(state)\n"), "C39-R6")
+R.mutant("benign-refresh-expire-walk-comprehension", SESS,
+         sub(_EXPIRE_WALK, "            cascaded = [\n                member\n                for member in state.manager.mapper.cascade_iterator(\n                    \"refresh-expire\", state\n                )\n            ]\n"
+                           "            self._conditional_expire(state)\n            for member in cascaded:\n                self._conditional_expire(member[2])\n"), None)
+R.mutant("benign-refresh-expire-walk-helpers", SESS,
+         _chain(sub(_EXPIRE_WALK, "            cascaded = self._refresh_expire_cascade(state)\n            self._conditional_expire(state)\n            self._expire_cascaded(cascaded)\n"),
+                sub(_COND_EXPIRE_AT, "    def _refresh_expire_cascade(self, state):\n        return list(\n            state.manager.mapper.cascade_iterator(\"refresh-expire\", state)\n        )\n\n"
+                                     "    def _expire_cascaded(self, cascaded):\n        for o, m, st_, dct_ in cascaded:\n            self._conditional_expire(st_)\n\n" + _COND_EXPIRE_AT)),
+         None)
+R.mutant("refresh-expire-helper-walk-after-lead-expired", SESS,
+         _chain(sub(_EXPIRE_WALK, "            self._conditional_expire(state)\n            cascaded = self._refresh_expire_cascade(state)\n            self._expire_cascaded(cascaded)\n"),
+                sub(_COND_EXPIRE_AT, "    def _refresh_expire_cascade(self, state):\n        return list(\n            state.manager.mapper.cascade_iterator(\"refresh-expire\", state)\n        )\n\n"
+                                     "    def _expire_cascaded(self, cascaded):\n        for o, m, st_, dct_ in cascaded:\n            self._conditional_expire(st_)\n\n" + _COND_EXPIRE_AT)),
+         "C39-R6")
+R.mutant("benign-refresh-expire-generator-helper-collected-by-caller", SESS,
+         _chain(sub(_EXPIRE_WALK, "            cascaded = tuple(self._refresh_expire_cascade(state))\n            self._conditional_expire(state)\n            for o, m, st_, dct_ in cascaded:\n                self._conditional_expire(st_)\n"),
+                sub(_COND_EXPIRE_AT, "    def _refresh_expire_cascade(self, state):\n        return state.manager.mapper.cascade_iterator(\"refresh-expire\", state)\n\n" + _COND_EXPIRE_AT)),
+         None)
+R.mutant("benign-refresh-expire-inverted-branch-alias", SESS,
+         sub("        if attribute_names:\n            state._expire_attributes(state.dict, attribute_names)\n        else:\n            # pre-fetch the full cascade since the expire is going to\n            # remove associations\n" + _EXPIRE_WALK,
+             "        if not attribute_names:\n            walk = state.manager.mapper.cascade_iterator\n            lead = state\n            cascaded = list(walk(\"refresh-expire\", lead))\n"
+             "            self._conditional_expire(lead)\n            for o, m, st_, dct_ in cascaded:\n                self._conditional_expire(st_)\n            return\n\n"
+             "        state._expire_attributes(state.dict, attribute_names)\n"), None)
+R.mutant("benign-refresh-expire-bound-generator-collected-before-expire", SESS,
+         sub(_EXPIRE_WALK, "            walk = state.manager.mapper.cascade_iterator(\"refresh-expire\", state)\n            cascaded = list(walk)\n"
+                           "            self._conditional_expire(state)\n            for o, m, st_, dct_ in cascaded:\n                self._conditional_expire(st_)\n"), None)
+# seed C39_4: the cascade listeners bypass the cascading Session API
+_SET_EXPUNGE = "                    sess.expunge(oldvalue)\n"
+_REMOVE_EXPUNGE = "                if sess and item_state in sess._new:\n                    sess.expunge(item)\n"
+_TRACK_AT = "def _track_cascade_events(descriptor, prop):\n"
+R.mutant("seed4-set-listener-expunges-state-without-cascade", UOW,
+         sub(_SET_EXPUNGE, "                    sess._expunge_states([oldvalue_state])\n"), "C39-R7")
+R.mutant("remove-listener-expunges-state-without-cascade", UOW,
+         sub(_REMOVE_EXPUNGE, "                if sess and item_state in sess._new:\n                    sess._expunge_states([item_state])\n"), "C39-R7")
+R.mutant("append-listener-saves-without-cascade", UOW,
+         sub("                sess._save_or_update_state(item_state)\n", "                sess._save_or_update_impl(item_state)\n"), "C39-R7")
+R.mutant("set-listener-pops-new-directly", UOW,
+         sub(_SET_EXPUNGE, "                    sess._new.pop(oldvalue_state)\n                    oldvalue_state._detach(sess)\n"), "C39-R7")
+R.mutant("listener-helper-expunges-state-without-cascade", UOW,
+         _chain(sub(_SET_EXPUNGE, "                    _expunge_pending_orphan(sess, oldvalue_state, oldvalue)\n"),
+                sub(_REMOVE_EXPUNGE, "                if sess and item_state in sess._new:\n                    _expunge_pending_orphan(sess, item_state, item)\n"),
+                sub(_TRACK_AT, "def _expunge_pending_orphan(session, orphan_state, orphan):\n    session._expunge_states([orphan_state])\n\n\n" + _TRACK_AT)),
+         "C39-R7")
+R.mutant("benign-listener-helper-expunges-through-public-api", UOW,
+         _chain(sub(_SET_EXPUNGE, "                    _expunge_pending_orphan(sess, oldvalue_state, oldvalue)\n"),
+                sub(_REMOVE_EXPUNGE, "                if sess and item_state in sess._new:\n                    _expunge_pending_orphan(sess, item_state, item)\n"),
+                sub(_TRACK_AT, "def _expunge_pending_orphan(session, orphan_state, orphan):\n    # the public method applies the expunge cascade\n    session.expunge(orphan)\n\n\n" + _TRACK_AT)),
+         None)
+R.mutant("benign-set-listener-early-return-bound-method-alias", UOW,
+         _chain(sub("        sess = state.session\n        if sess:\n            if sess._warn_on_events:\n                sess._flush_warning(\"related attribute set\")\n",
+                    "        owning_session = state.session\n        if not owning_session:\n            return newvalue\n        sess = owning_session\n        expunge = sess.expunge\n        if sess:\n            if sess._warn_on_events:\n                sess._flush_warning(\"related attribute set\")\n"),
+                sub(_SET_EXPUNGE, "                    expunge(oldvalue)\n")),
+         None)
+R.mutant("benign-remove-listener-inverted-branch", UOW,
+         sub("                if sess and item_state in sess._new:\n                    sess.expunge(item)\n                else:\n",
+             "                pending_here = bool(sess) and item_state in sess._new\n                if pending_here:\n                    state.session.expunge(item)\n                if not pending_here:\n"),
+         None)
+# C39-R8
+R.mutant("delete-impl-marks-pending-cascaded-object", SESS,
+         sub("        if state.key is None:\n            if head:\n                raise sa_exc.InvalidRequestError(\n                    \"Instance '%s' is not persisted\" % state_str(state)\n                )\n            else:\n                return\n",
+             "        if state.key is None and head:\n            raise sa_exc.InvalidRequestError(\n                \"Instance '%s' is not persisted\" % state_str(state)\n            )\n"),
+         "C39-R8")
+R.mutant("o2m-presort-deletes-includes-added-children", DEP,
+         sub("                for child in history.deleted:\n                    if child is not None and self.hasparent(child) is False:\n                        if self.cascade.delete_orphan:\n                            uowcommit.register_object(child, isdelete=True)\n",
+             "                for child in history.sum():\n                    if child is not None and self.hasparent(child) is False:\n                        if self.cascade.delete_orphan:\n                            uowcommit.register_object(child, isdelete=True)\n"),
+         "C39-R8")
+R.mutant("m2o-presort-saves-deletes-whole-history", DEP,
+         sub("                if history:\n                    for child in history.deleted:\n                        if self.hasparent(child) is False:\n                            uowcommit.register_object(\n                                child,\n                                isdelete=True,\n                                operation=\"delete\",\n                                prop=self.prop,\n                            )\n\n                            t = self.mapper.cascade_iterator(\"delete\", child)\n",
+             "                if history:\n                    for child in history.sum():\n                        if self.hasparent(child) is False:\n                            uowcommit.register_object(\n                                child,\n                                isdelete=True,\n                                operation=\"delete\",\n                                prop=self.prop,\n                            )\n\n                            t = self.mapper.cascade_iterator(\"delete\", child)\n"),
+         "C39-R8")
+R.mutant("benign-m2o-presort-deletes-skips-pending", DEP,
+         sub("                    for child in todelete:\n                        if child is None:\n                            continue\n",
+             "                    for child in todelete:\n                        if child is None or not child.has_identity:\n                            continue\n"),
+         None)
+R.mutant("benign-delete-impl-truthiness-test-nested", SESS,
+         sub("        if state.key is None:\n            if head:\n                raise sa_exc.InvalidRequestError(\n                    \"Instance '%s' is not persisted\" % state_str(state)\n                )\n            else:\n                return\n",
+             "        identity_key = state.key\n        if not identity_key:\n            if not head:\n                return\n            raise sa_exc.InvalidRequestError(\n                \"Instance '%s' is not persisted\" % state_str(state)\n            )\n"),
+         None)
+R.mutant("benign-o2m-presort-deletes-removed-renamed", DEP,
+         sub("                for child in history.deleted:\n                    if child is not None and self.hasparent(child) is False:\n                        if self.cascade.delete_orphan:\n                            uowcommit.register_object(child, isdelete=True)\n                        else:\n                            uowcommit.register_object(child)\n",
+             "                for removed in list(history.deleted):\n                    if removed is not None and self.hasparent(removed) is False:\n                        if self.cascade.delete_orphan:\n                            uowcommit.register_object(removed, isdelete=True)\n                        else:\n                            uowcommit.register_object(removed)\n"),
+         None)
